@@ -167,11 +167,55 @@ def frac_values(draw, nkeys, zero_prob=0.12):
     return [draw(fracs(zero_prob)) for _ in range(nkeys)]
 
 
+TYPED_KINDS = ["int", "int", "float", "complex", "bool", "np.int64", "np.float64", "Fraction", "special"]
+
+
+@st.composite
+def typed_values(draw, n):
+    """Coefficient lists of one Python / numpy number type, with the special values 0, 1, -1 and repeated values over-represented
+    (call-time shortcuts on particular values or types).  Encoded as {"t": kind, "v": [...]} with JSON-able entries."""
+    kind = draw(st.sampled_from(TYPED_KINDS))
+    if kind == "special":
+        kind = draw(st.sampled_from(["int", "float", "Fraction"]))
+        vals = [draw(st.sampled_from([0, 1, -1, 1, 2, 0])) for _ in range(n)]
+        if n and draw(st.booleans()):
+            vals = [vals[0]] * n          # all coefficients equal
+    elif kind == "bool":
+        vals = [draw(st.sampled_from([0, 1])) for _ in range(n)]
+    elif kind in ("int", "np.int64"):
+        vals = [draw(st.integers(-4, 4)) for _ in range(n)]
+    else:
+        vals = [draw(st.sampled_from([-3, -2, -1, 0, 1, 2, 3])) * draw(st.sampled_from([1, 1, 2])) for _ in range(n)]   # halves
+    im = [draw(st.integers(-2, 2)) for _ in range(n)] if kind == "complex" else None
+    return {"t": kind, "v": vals, "im": im}
+
+
+def decode_typed(tv):
+    """-> list of numbers of the requested type (floats/Fractions are halves of the stored ints, exactly representable)."""
+    import numpy as np
+    t, v = tv["t"], tv["v"]
+    if t == "int":
+        return [int(x) for x in v]
+    if t == "bool":
+        return [bool(x) for x in v]
+    if t == "float":
+        return [x / 2 for x in v]
+    if t == "Fraction":
+        return [Fraction(x, 2) for x in v]
+    if t == "complex":
+        return [complex(x / 2, y) for x, y in zip(v, tv["im"])]
+    if t == "np.int64":
+        return [np.int64(x) for x in v]
+    if t == "np.float64":
+        return [np.float64(x / 2) for x in v]
+    raise KeyError(t)
+
+
 @st.composite
 def operand(draw, d, classes=None, max_len=None, min_len=0, zero_prob=0.12):
-    """{"cls", "keys", "vals"} with Fraction values encoded as strings."""
+    """{"cls", "keys", "vals", "tvals"}: Fraction values encoded as strings, plus typed values for the 'typed' mode."""
     cls, ks = draw(key_tuples(d, classes, max_len, min_len))
-    return {"cls": cls, "keys": ks, "vals": draw(frac_values(len(ks), zero_prob))}
+    return {"cls": cls, "keys": ks, "vals": draw(frac_values(len(ks), zero_prob)), "tvals": draw(typed_values(len(ks)))}
 
 
 def is_canonical(keys):
